@@ -271,6 +271,23 @@ func checkC01(sc *Scenario) *CheckResult {
 		if cv.OK {
 			res.violate("ok_without_backend", "ok-without-backend", "client saw OK but no backend handler ran")
 		}
+		if os.Getenv("VERIF_C01_ERRCLASS") != "" {
+			res.class("NOBACKEND status=%d form=%s http2=%v method=%s cfg=%v note=%s", cv.Status, sc.Client.Form, sc.Client.HTTP2, sc.Client.Method, sc.Config.Protocols, sc.Note)
+		}
+		restInexpressible := false
+		if contains(sc.Config.Protocols, ProtoREST) && (sc.Client.Form == FormREST || !contains(sc.Config.Protocols, formProtocol(sc.Client.Form))) {
+			for _, m := range out.Sent.Msgs {
+				if hasUnknownEnum(m.ProtoReflect()) {
+					restInexpressible = true // an enum number without a name has no REST parameter form
+				}
+			}
+		}
+		if !cv.OK && !restTargetUnroutable(sc) && !restInexpressible && !strings.Contains(sc.Note, "limit_at_boundary") {
+			// a valid request in a form, codec and compression the transcoder knows, for a method the
+			// service can serve: it has to be dispatched (the only legitimate refusal the generator can
+			// produce is a REST-only service asked for a method without binding)
+			res.violate("spurious_rejection", "c01:rejected", "valid %s request for %s (%s) was not dispatched: HTTP %d %s", sc.Client.Form, sc.Client.Method, ct, cv.Status, cv.outcome())
+		}
 		return res
 	}
 	res.NonTrivial = ct != bt && (anyNonDefault(sc.Client.Msgs) || anyNonDefault(sc.Backend.Msgs))
